@@ -28,6 +28,14 @@ def make_files(rng, k, lang, equal_names=False, only=None):
     gen = progs.ProgGen(rng, prof)
     names = progs.TYPE_IDENTS[:]
     rng.shuffle(names)
+    # DISTINCT names that a careless comparator may still take for equal: the same letters in another case, a trailing number with
+    # leading zeros, an underscore more (seeded C06_e: a natural-order sort key without a tie-break on the full name keeps such
+    # neighbours in arrival order).  The members of a family land in different files (names are popped one per item).
+    fam = rng.choice(NEAR_EQUAL)
+    if only != 'enum' and k >= 2 and rng.random() < 0.6:
+        names = [n for n in names if n not in fam]
+        for q, n in enumerate(fam):
+            names.insert(len(names) - min(len(names), q * 2), n)      # spread over the first items popped
     files = []
     for i in range(k):
         prog = progs.Program(rng.getrandbits(32))
@@ -50,6 +58,8 @@ def make_files(rng, k, lang, equal_names=False, only=None):
 
 
 POOL = ['Item', 'Node', 'Leaf', 'Edge']
+NEAR_EQUAL = [['Level1', 'Level01', 'Level001'], ['Page2', 'Page02', 'Page10'], ['Item', 'ITEM', 'Item_'], ['ApiKey', 'APIKey', 'Api_Key'],
+              ['V18446744073709551616', 'V18446744073709551617', 'V9'], ['Aa', 'AA', 'A_a']]
 
 
 def imports_ambiguity(app_imports, defs, importer='app'):
